@@ -2,7 +2,7 @@
    interpretation, concrete environments satisfying the hypotheses of each theorem, and concrete runs
    of the executable models. *)
 From Coq Require Import QArith List Bool PArith Arith.
-From PV Require Import Base.PyData Base.Expr Base.Interp Base.Stmts C09.Model C09.Proofs C09.ProofsExec C09.ProofsExt C09.ProofsExt2.
+From PV Require Import Base.PyData Base.Expr Base.Interp Base.Stmts C09.Model C09.Proofs C09.ProofsExec C09.ProofsExt C09.ProofsExt2 C09.ProofsExt3.
 Import ListNotations.
 Local Open Scope Q_scope.
 
@@ -260,3 +260,22 @@ Example iov_dists_example :
   [{| rd_names := [311; 321]%positive; rd_sigma := [[411; 412]; [412; 422]]%positive |};
    {| rd_names := [312; 322]%positive; rd_sigma := [[411; 412]; [412; 422]]%positive |}].
 Proof. vm_compute. reflexivity. Qed.
+
+(* ---- set_iiv_on_ruv with two epsilons sharing one eta: Y = F + F*E1 + E2, eta = 1 (exp 1 = 2 under std_fi) ---- *)
+Definition xE1 : id := 251%positive. Definition xE2 : id := 252%positive. Definition xERV : id := 253%positive.
+Definition ex_ruv_prog : list stmt :=
+  [Assign xF (Sym xT); Assign xY (Add (Add (Sym xF) (Mul (Sym xF) (Sym xE1))) (Sym xE2))].
+Example set_iiv_on_ruv_all_hyps :
+  set_iiv_on_ruv doc_templates [(xE1, xERV); (xE2, xERV)] ex_ruv_prog =
+  [Assign xF (Sym xT);
+   Assign xY (Add (Add (Sym xF) (Mul (Sym xF) (Mul (Sym xE1) (Fn1 F_EXP (Sym xERV))))) (Mul (Sym xE2) (Fn1 F_EXP (Sym xERV))))] /\
+  NoDup (map fst [(xE1, xERV); (xE2, xERV)]) /\ ~ In xERV (map fst [(xE1, xERV); (xE2, xERV)]) /\
+  ~ In xE1 (flat_map defs ex_ruv_prog) /\ ~ In xE2 (flat_map defs ex_ruv_prog) /\
+  (* T = 4, E1 = 3, E2 = 5, eta = 1: Y = 4 + 4*(3*2) + 5*2 = 38 on both sides *)
+  run [(xT, 4); (xE1, 3); (xE2, 5); (xERV, 1)] (set_iiv_on_ruv doc_templates [(xE1, xERV); (xE2, xERV)] ex_ruv_prog) xY = Some (38 # 1) /\
+  exec std_fi std_ode (ruv_scale std_fi doc_ruv_expr [(xE1, xERV); (xE2, xERV)] (env_of [(xT, 4); (xE1, 3); (xE2, 5); (xERV, 1)]))
+       ex_ruv_prog xY = Some (38 # 1).
+Proof.
+  repeat split; try (vm_compute; reflexivity); try (cbn; intuition discriminate).
+  repeat constructor; cbn; intuition discriminate.
+Qed.
